@@ -639,3 +639,225 @@ def check_cis_operator(ctx, rid):
             A_only = I.call_function(rc, f_mv, [mol, V.copy(), w.copy(), ea_ei.copy(), Cocc.copy(), Cvirt.copy()])
             ctx.check(getattr(A_only, "shape", None) == A.shape and all(sp.sympify(x) == sp.sympify(y) for x, y in zip(A_only.reshape(-1), A.reshape(-1))), rid, rc, f_mv,
                       "matrix_vector_product_batched", f"A V without B ({sched}) point #{seed}", "the CIS call (makeB=False) returns the same A V", "A V depends on whether B is requested")
+
+
+# ====================================================================================================================
+# energy bookkeeping (energy.py), interpreted
+def check_energy_functions(ctx, rid, which=("total", "heat", "elec", "xl", "iso")):
+    """The small energy routines are interpreted by sa.npsym on symbolic inputs (a batch of a 3-atom and a 2-atom molecule) and compared with their definitions:
+       total_energy:  Etot_m = Eelec_m + sum_{pairs of m} EnucAB,  returned as (Etot, Enuc);
+       heat_formation: Hf_m = Etot_m - sum_{atoms of m} Eiso_a (+ sum eheat[Z_a] under the flag), second result = sum Eiso;
+       elec_energy:   1/2 sum P (h + F) closed shell, 1/2 sum [(Pa + Pb) h + Pa Fa + Pb Fb] open shell, h = symmetrised upper triangle of Hcore (or Hcore itself with doTriu=False);
+       elec_energy_xl: sum [D F - 1/2 (F - h) P], equal to elec_energy at D = P;
+       elec_energy_isolated_atom: sum over the seven parameters of parameter * its own occupation-coefficient table at Z."""
+    import numpy as np
+    import sympy as sp
+    from .loader import AnalysisError
+    from .npsym import NpSym
+    repo = ctx.repo
+    en = repo.mod(EN)
+    vec = lambda name, n: np.array([sp.Symbol(f"{name}{i}") for i in range(n)], dtype=object)
+    I = NpSym(repo)
+    eq = lambda a, b: sp.expand(sp.sympify(a) - sp.sympify(b)) == 0
+    # two padded batches: (3, 2) atoms, and (3, 1) atoms -- unequal molecules whose atom count is a multiple of the batch size (4 = 2 x 2), so that any
+    # "reshape(nmol, -1)" shortcut keyed on divisibility regroups atoms across molecules
+    for sizes in ((3, 2), (3, 1)) if ({"total", "heat"} & set(which)) else ():
+      S = System(sizes, 3, 4)
+      na, npairs = len(S.atoms), len(S.pairs)
+      atom_molid = np.array([m for m, p in S.atoms], dtype=np.int64)
+      pair_molid = np.array([S.atoms[a][0] for a, b in S.pairs], dtype=np.int64)
+      if "total" in which:
+          f = en.func("total_energy")
+          Enuc_ab, Eelec = vec("Enuc", npairs), vec("Eel", S.nmol)
+          vals = {"nmol": S.nmol, "pair_molid": pair_molid, "EnucAB": Enuc_ab, "Eelec": Eelec}
+          res = I.call_function(en, f, [vals[a.arg] for a in f.args.args])
+          ok = isinstance(res, tuple) and len(res) == 2 and all(getattr(x, "shape", None) == (S.nmol,) for x in res)
+          if ok:
+              for m in range(S.nmol):
+                  nuc = sp.Add(*[Enuc_ab[k] for k in range(npairs) if pair_molid[k] == m])
+                  ok = ok and eq(res[0][m], Eelec[m] + nuc) and eq(res[1][m], nuc)
+          ctx.check(ok, rid, en, f, "total_energy", "Etot = Eelec + Enuc", "total_energy returns (Eelec + sum over the molecule's own pairs of EnucAB, that sum) for every molecule of the test batch",
+                    "total_energy does not return (Eelec + sum of the molecule's pair repulsions, that sum): total energy and its nuclear part disagree")
+    if "heat" in which:
+          f = en.func("heat_formation")
+          Etot, Eiso = vec("Etot", S.nmol), vec("Eiso", na)
+          Z = np.array([8, 6, 1, 7, 1], dtype=np.int64)[:na]
+          eheat = vec("eheat", 10)
+          const = S.namespace(eheat=eheat)
+          for flag in (True, False):
+              vals = {"const": const, "nmol": S.nmol, "atom_molid": atom_molid, "Z": Z, "Etot": Etot, "Eiso": Eiso, "flag": flag}
+              res = I.call_function(en, f, [vals[a.arg] for a in f.args.args])
+              ok = isinstance(res, tuple) and len(res) == 2 and all(getattr(x, "shape", None) == (S.nmol,) for x in res)
+              if ok:
+                  for m in range(S.nmol):
+                      iso = sp.Add(*[Eiso[a] for a in range(na) if atom_molid[a] == m])
+                      heat = sp.Add(*[eheat[Z[a]] for a in range(na) if atom_molid[a] == m])
+                      ok = ok and eq(res[0][m], Etot[m] - iso + (heat if flag else 0)) and eq(res[1][m], iso)
+              ctx.check(ok, rid, en, f, "heat_formation", f"Hf (flag={flag})", f"Hf = Etot - sum of the molecule's own Eiso{' + sum of its eheat[Z]' if flag else ''}; second result = sum Eiso",
+                        f"heat_formation(flag={flag}) is not Etot - sum Eiso{' + sum eheat' if flag else ''} over the molecule's own atoms")
+
+    if "elec" in which or "xl" in which:
+        N = 3
+        sym = lambda name: np.array([[[sp.Symbol(f"{name}{b}_{i}_{j}") for j in range(N)] for i in range(N)] for b in range(2)], dtype=object)
+        P, F, H, D = sym("P"), sym("F"), sym("H"), sym("D")
+        hs = H.copy()
+        for b in range(2):
+            for i in range(N):
+                for j in range(i):
+                    hs[b, i, j] = H[b, j, i]
+    if "elec" in which:
+        f = en.func("elec_energy")
+        res = I.call_function(en, f, [P.copy(), F.copy(), H.copy()])
+        want = [sp.Rational(1, 2) * sp.Add(*[P[b, i, j] * (hs[b, i, j] + F[b, i, j]) for i in range(N) for j in range(N)]) for b in range(2)]
+        ok = getattr(res, "shape", None) == (2,) and all(eq(res[b], want[b]) for b in range(2))
+        ctx.check(ok, rid, en, f, "elec_energy", "closed shell", "closed-shell Eelec = 1/2 sum P (h + F) with h the symmetrised upper triangle of Hcore", "closed-shell electronic energy is not 1/2 sum P (h + F)")
+        res = I.call_function(en, f, [P.copy(), F.copy(), H.copy()], {"doTriu": False})
+        want2 = [sp.Rational(1, 2) * sp.Add(*[P[b, i, j] * (H[b, i, j] + F[b, i, j]) for i in range(N) for j in range(N)]) for b in range(2)]
+        ctx.check(getattr(res, "shape", None) == (2,) and all(eq(res[b], want2[b]) for b in range(2)), rid, en, f, "elec_energy", "doTriu=False", "with doTriu=False Hcore is used as given",
+                  "elec_energy(doTriu=False) does not use Hcore as given")
+        Pa, Pb, Fa, Fb = sym("Pa"), sym("Pb"), sym("Fa"), sym("Fb")
+        res = I.call_function(en, f, [np.stack([Pa, Pb], axis=1), np.stack([Fa, Fb], axis=1), H.copy()])
+        want3 = [sp.Rational(1, 2) * sp.Add(*[(Pa[b, i, j] + Pb[b, i, j]) * hs[b, i, j] + Pa[b, i, j] * Fa[b, i, j] + Pb[b, i, j] * Fb[b, i, j] for i in range(N) for j in range(N)]) for b in range(2)]
+        ctx.check(getattr(res, "shape", None) == (2,) and all(eq(res[b], want3[b]) for b in range(2)), rid, en, f, "elec_energy", "open shell",
+                  "open-shell Eelec = 1/2 sum [(Pa + Pb) h + Pa Fa + Pb Fb]", "open-shell electronic energy is not 1/2 sum [(Pa + Pb) h + Pa Fa + Pb Fb]")
+    if "xl" in which:
+        f = en.func("elec_energy_xl")
+        res = I.call_function(en, f, [D.copy(), P.copy(), F.copy(), H.copy()])
+        want = [sp.Add(*[D[b, i, j] * F[b, i, j] - sp.Rational(1, 2) * (F[b, i, j] - hs[b, i, j]) * P[b, i, j] for i in range(N) for j in range(N)]) for b in range(2)]
+        ok = getattr(res, "shape", None) == (2,) and all(eq(res[b], want[b]) for b in range(2))
+        ctx.check(ok, rid, en, f, "elec_energy_xl", "E(D,P)", "E(D,P) = sum [D F - 1/2 (F - h) P] (shadow functional), h symmetrised as in elec_energy", "shadow energy is not sum [D F - 1/2 (F - h) P]")
+        res2 = I.call_function(en, f, [P.copy(), P.copy(), F.copy(), H.copy()])
+        res3 = I.call_function(en, en.func("elec_energy"), [P.copy(), F.copy(), H.copy()])
+        ctx.check(all(eq(res2[b], res3[b]) for b in range(2)), rid, en, f, "elec_energy_xl", "D = P", "E(D,P) at D = P equals the closed-shell SCF energy of elec_energy",
+                  "shadow energy does not reduce to the SCF energy at D = P")
+    if "iso" in which:
+        f = en.func("elec_energy_isolated_atom")
+        names = ("uss", "upp", "gss", "gpp", "gsp", "gp2", "hsp")
+        Z = np.array([8, 6, 1], dtype=np.int64)
+        tabs = {n: np.array([sp.Symbol(f"{n}c{z}") for z in range(10)], dtype=object) for n in names}
+        const = types.SimpleNamespace(**{n + "c": tabs[n] for n in names})
+        par = {n: vec(n, 3) for n in names}
+        vals = dict(par, const=const, Z=Z)
+        try:
+            args = [vals[a.arg] for a in f.args.args]
+        except KeyError as e:
+            raise AnalysisError(f"elec_energy_isolated_atom: parameter {e} unknown")
+        res = I.call_function(en, f, args)
+        ok = getattr(res, "shape", None) == (3,) and all(eq(res[a], sp.Add(*[par[n][a] * tabs[n][Z[a]] for n in names])) for a in range(3))
+        ctx.check(ok, rid, en, f, "elec_energy_isolated_atom", "Eiso", "Eiso = sum over the seven one-centre parameters of parameter * its own occupation-coefficient table at Z",
+                  "isolated-atom energy pairs a parameter with another parameter's occupation coefficients (or drops a term)")
+
+
+# ====================================================================================================================
+# reported charges and dipole
+def _lca_block(mod, func, stores):
+    """(block list, first index, last index) of the smallest statement range of one block of `func` that contains all `stores`"""
+    def chain(n):
+        out = []
+        cur = n
+        while cur is not None and cur is not func:
+            out.append(cur)
+            cur = mod.parents.get(cur)
+        return list(reversed(out))
+    chains = [chain(s) for s in stores]
+    depth = 0
+    while all(len(c) > depth + 1 for c in chains) and len({id(c[depth]) for c in chains}) == 1:
+        depth += 1
+    from .loader import AnalysisError
+    while depth >= 0:
+        parent = mod.parents.get(chains[0][depth]) if depth > 0 else func
+        for fld in ("body", "orelse", "finalbody"):
+            blk = getattr(parent, fld, None)
+            if isinstance(blk, list) and all(any(c[depth] is st for st in blk) for c in chains):
+                idx = sorted({i for i, st in enumerate(blk) for c in chains if c[depth] is st})
+                return blk, idx[0], idx[-1]
+        depth -= 1          # the statements sit in different blocks of one compound statement: take that statement itself
+    raise AnalysisError(f"{func.name}: statements are not in one block")
+
+
+def check_charges_and_dipole(ctx, rid):
+    """Reported observables of the reported density, interpreted by sa.npsym on a padded batch (3-atom and 2-atom molecule):
+       q_a = Z_core(a) - sum of the atom's diagonal elements of the total density (closed / open shell, 4 / 9 orbitals per atom);
+       dipole_m = [sum_a Z_core(a) R_a - sum_a (sum_i P_ii R_a + 2 P_{s,p_d} D_a)] * to_debye * debye_to_AU, same core charges, closed and open shell."""
+    import ast
+    import numpy as np
+    import sympy as sp
+    from .loader import AnalysisError, norm
+    from .npsym import NpSym, _Frame, FuncRef
+    repo = ctx.repo
+    es = repo.mod("seqm/ElectronicStructure.py")
+    ef = es.func("Electronic_Structure.forward")
+    stores = [st for st in ast.walk(ef) if isinstance(st, (ast.Assign, ast.AugAssign)) and norm(st.targets[0] if isinstance(st, ast.Assign) else st.target) == "molecule.q"]
+    if not stores:
+        raise AnalysisError("Electronic_Structure.forward: no store to molecule.q")
+    blk, i0, i1 = _lca_block(es, ef, stores)
+    species = np.array([[8, 6, 1], [7, 1, 0]], dtype=np.int64)
+    tore = np.array([sp.Integer(0)] + [sp.Symbol(f"Z{z}") for z in range(1, 10)], dtype=object)
+    for nbf, method in ((4, "AM1"), (9, "PM6")):
+        N = 3 * nbf
+        dens = lambda name: np.array([[[sp.Symbol(f"{name}{m}_{min(i, j)}_{max(i, j)}") for j in range(N)] for i in range(N)] for m in range(2)], dtype=object)
+        for open_shell in (False, True):
+            Pa, Pb = dens("a"), dens("b")
+            dm = np.stack([Pa, Pb], axis=1) if open_shell else Pa
+            Ptot = Pa + Pb if open_shell else Pa
+            I = NpSym(repo)
+            mol = types.SimpleNamespace(dm=dm, method=method, const=types.SimpleNamespace(tore=tore), species=species, q=None)
+            selfns = types.SimpleNamespace(atomic_charges=FuncRef(es, es.func("Electronic_Structure.atomic_charges")))
+            fr = _Frame(I, es, {"molecule": mol, "self": selfns})
+            for st in blk[:i0]:
+                if isinstance(st, ast.Assign) and all(isinstance(t, ast.Name) for t in st.targets):
+                    try:
+                        fr.stmt(st)
+                    except AnalysisError:
+                        pass
+            fr.block(blk[i0:i1 + 1])
+            q = mol.q
+            ok = getattr(q, "shape", None) == (2, 3)
+            if ok:
+                for m in range(2):
+                    for a in range(3):
+                        want = tore[species[m, a]] - sp.Add(*[Ptot[m, a * nbf + i, a * nbf + i] for i in range(nbf)])
+                        ok = ok and sp.expand(sp.sympify(q[m, a]) - want) == 0
+            ctx.check(ok, rid, es, stores[0], "Electronic_Structure.forward", f"q[{method}, {'open' if open_shell else 'closed'} shell]",
+                      f"{method}, {'open' if open_shell else 'closed'} shell: q = core charge - the atom's {nbf} diagonal elements of the {'alpha + beta' if open_shell else ''} reported density (padded batch, abstract interpretation)",
+                      f"{method}, {'open' if open_shell else 'closed'} shell: reported atomic charges are not core charge minus the atom's block-diagonal population of the reported density "
+                      f"(wrong spin block / orbital count / sign)")
+    # ---- dipole
+    dp = repo.mod("seqm/seqm_functions/dipole.py")
+    cg = dp.func("calc_ground_dipole")
+    S = System((3, 2), 3, 4)
+    na = len(S.atoms)
+    Z = np.array([8, 6, 1, 7, 1], dtype=np.int64)
+    heavy = [a for a in range(na) if Z[a] > 2]
+    ddv = np.array([sp.Symbol(f"D{a}") for a in heavy], dtype=object)
+    coords = np.array([[[sp.Symbol(f"r{m}_{p}_{c}") for c in range(3)] for p in range(3)] for m in range(2)], dtype=object)
+    N = 12
+    dens = lambda name: np.array([[[sp.Symbol(f"{name}{m}_{min(i, j)}_{max(i, j)}") for j in range(N)] for i in range(N)] for m in range(2)], dtype=object)
+    for open_shell in (False, True):
+        Pa, Pb = dens("a"), dens("b")
+        P = np.stack([Pa, Pb], axis=1) if open_shell else Pa
+        Ptot = Pa + Pb if open_shell else Pa
+        I = NpSym(repo, stubs={"dd_qq": lambda *a, **k: (ddv.copy(), None)})
+        zero = np.full((na,), sp.Integer(0), dtype=object)
+        mol = types.SimpleNamespace(rij=np.full((len(S.pairs),), sp.Integer(1), dtype=object), parameters={"zeta_s": zero, "zeta_p": zero}, const=types.SimpleNamespace(qn=np.arange(10), tore=tore),
+                                    Z=Z, species=species, maskd=S.maskd, coordinates=coords, nmol=2, molsize=3, dipole=None)
+        I.call_function(dp, cg, [mol, P])
+        a0 = I.global_value(dp, "a0")
+        fac = I.global_value(dp, "to_debye") * I.global_value(dp, "debye_to_AU")
+        dip = mol.dipole
+        ok = getattr(dip, "shape", None) == (2, 3)
+        if ok:
+            for m in range(2):
+                for d in range(3):
+                    tot = sp.Integer(0)
+                    for a, (mm, p) in enumerate(S.atoms):
+                        if mm != m:
+                            continue
+                        norb = 4 if Z[a] > 2 else 1
+                        tot += tore[Z[a]] * coords[m, p, d] - sp.Add(*[Ptot[m, 4 * p + i, 4 * p + i] for i in range(norb)]) * coords[m, p, d]
+                        if Z[a] > 2:
+                            tot -= 2 * Ptot[m, 4 * p, 4 * p + d + 1] * ddv[heavy.index(a)] * a0
+                    ok = ok and sp.expand(sp.sympify(dip[m, d]) - tot * fac) == 0
+        ctx.check(ok, rid, dp, cg, "calc_ground_dipole", f"dipole[{'open' if open_shell else 'closed'} shell]",
+                  f"{'open' if open_shell else 'closed'}-shell dipole = sum Z_core R - sum (atomic population R + 2 P_sp D) in atomic units -> Debye, with the core charges used for the atomic charges",
+                  f"{'open' if open_shell else 'closed'}-shell dipole is not sum_a Z_a R_a - Tr(P mu) of the density it is given: dipole and charges describe different densities")
